@@ -193,6 +193,11 @@ class Interp:
         self.max_unroll = 200
         self.active: List[str] = []
         self.havoc_log: List[str] = []
+        self.frames: List[Frame] = []  # frames of the interpreted calls in progress (innermost last); stubs may inspect them
+        try:
+            ctx.interp = self
+        except Exception:
+            pass
         # default-argument values of module-/class-level functions, evaluated once per run (= per explored path), as python
         # evaluates them once at definition time: a mutable default (`def f(x, _cache={})`) is state shared between calls
         self.def_defaults: Dict[Any, Tuple[List[Any], Dict[str, Any]]] = {}
@@ -425,6 +430,7 @@ class Interp:
         self.bind_args(c, frame, args, kwargs)
         self.depth += 1
         self.active.append(c.key)
+        self.frames.append(frame)
         try:
             if isinstance(node, ast.Lambda):
                 return self.eval(node.body, frame)
@@ -442,6 +448,7 @@ class Interp:
         finally:
             self.depth -= 1
             self.active.pop()
+            self.frames.pop()
 
     def bind_args(self, c: Closure, frame: Frame, args: List[Any], kwargs: Dict[str, Any]) -> None:
         a = c.node.args
